@@ -36,7 +36,8 @@ CRASH_SITES = [
     "Outputs._from_job",  # body left
     "hooks.post_run_task",
     "final.save.before",  # before the result file is opened
-    "final.save.partial",  # result file partially written
+    "final.save.partial",  # inside save(): result file partially written, save lock held
+    "final.save.jobrecord",  # inside save(): result complete, job record being rewritten, save lock held
     "final.save.after",  # result file complete, info file still there, lock held
     "hooks.post_run",  # after lock release
 ]
@@ -71,17 +72,41 @@ if site == "Outputs._from_job":
 real_save = J.save
 def save(task_path, result=None, job=None, **kw):
     if site == "populate.save" and result is None:
-        os._exit(9)
+        # die inside the real save() of the job record (save lock held)
+        def dump0(obj, fp, *a, **k):
+            fp.write(b"\x80")
+            fp.flush()
+            os._exit(9)
+        R.cp.dump = dump0
+        real_save(task_path, result=result, job=job, **kw)
+        os._exit(8)
     if result is not None and site.startswith("final.save"):
         if site == "final.save.before":
             os._exit(9)
         if site == "final.save.partial":
-            import cloudpickle as cp
-            blob = cp.dumps(result)
-            with open(task_path / "_result.pklz", "wb") as f:
-                f.write(blob[: max(1, len(blob) // 2)])
-                f.flush()
-            os._exit(9)
+            # die INSIDE the real save(), i.e. while its <dir>_save.lock is held, with the
+            # result file half written
+            real_dump = R.cp.dump
+            def dump(obj, fp, *a, **k):
+                blob = R.cp.dumps(obj)
+                fp.write(blob[: max(1, len(blob) // 2)])
+                fp.flush()
+                os._exit(9)
+            R.cp.dump = dump
+            real_save(task_path, result=result, job=job, **kw)
+            os._exit(8)
+        if site == "final.save.jobrecord":
+            # result file complete, job record being rewritten, save lock still held
+            real_dump = R.cp.dump
+            state = {"n": 0}
+            def dump(obj, fp, *a, **k):
+                state["n"] += 1
+                if state["n"] == 2:
+                    os._exit(9)
+                return real_dump(obj, fp, *a, **k)
+            R.cp.dump = dump
+            real_save(task_path, result=result, job=job, **kw)
+            os._exit(8)
         real_save(task_path, result=result, job=job, **kw)
         os._exit(9)
     return real_save(task_path, result=result, job=job, **kw)
@@ -213,6 +238,42 @@ def bounded_truncations(ctx):
         shutil.rmtree(tmp, ignore_errors=True)
 
 
+def replay_stuck_load(rec):
+    """a refuted termination obligation of load_result: try the obvious environment — a complete
+    result next to every lock-like leftover file a dead writer can leave — under an alarm"""
+    if not rec["clause"].startswith("terminates."):
+        return None, False
+    from pydra.engine.result import load_result
+
+    files = _result_files()
+    cs, blob, jobblob = files["python"]
+    tmp = Path(tempfile.mkdtemp(prefix="vf_c12s_"))
+    try:
+        d = tmp / cs
+        d.mkdir()
+        (d / "_result.pklz").write_bytes(blob)
+        (d / "_job.pklz").write_bytes(jobblob)
+        for name in (f"{cs}_save.lock", f"{cs}.lock"):
+            (tmp / name).write_text("")
+
+        def on_alarm(*a):
+            raise TimeoutError()
+
+        old = signal.signal(signal.SIGALRM, on_alarm)
+        signal.alarm(10)
+        try:
+            load_result(cs, [tmp], retries=1, polling_interval=0.01)
+            hung = False
+        except TimeoutError:
+            hung = True
+        finally:
+            signal.alarm(0)
+            signal.signal(signal.SIGALRM, old)
+        return {"leftover_files": [f"{cs}_save.lock", f"{cs}.lock"], "complete_result_present": True, "load_result_hung_10s": hung}, hung
+    finally:
+        shutil.rmtree(tmp, ignore_errors=True)
+
+
 def run(ctx):
     ctx.level = "other"
     ctx.explanation = (
@@ -223,8 +284,8 @@ def run(ctx):
         "kill points of a real child process followed by a watched resubmission. The liveness part (no blocking on a dead "
         "process's lock) is only observed at those 12 points, not proved."
     )
-    res = verify(ctx, LR.contract({"returns-first-complete-result-in-list-order": "property:C12", "none-only-if-no-listed-cache-is-complete": "auxiliary"}))
-    summarize(ctx, res)
+    res = verify(ctx, LR.contract({"returns-first-complete-result-in-list-order": "property:C12", "none-only-if-no-listed-cache-is-complete": "auxiliary", "terminates": "property:C12"}))
+    summarize(ctx, res, replay=lambda rec: replay_stuck_load(rec))
     for qual in ("Job.run", "Job.run_async"):
         res = verify(ctx, JR.contract(qual, {"unerrored-result-only-after-successful-run": "property:C12", "cache-hit-only-unerrored": "property:C12"}))
         summarize(ctx, res, replay=H.replay_path)
